@@ -1341,3 +1341,40 @@ Proof.
     specialize (Be2 eq_refl eq_refl). discriminate.
   - destruct (Bse St eq_refl Dw) as (_ & Ex'). rewrite <- Ex. apply Ex'.
 Qed.
+
+(* ---------------------------------------------------------------------------------------------- *)
+(* within one batch every leave is delivered before every join (the log is newest first)            *)
+Lemma do_leaves_log rem : forall s,
+  exists ls, log (do_leaves rem s) = ls ++ log s /\ Forall (fun e => ev_kind e = Leave) ls.
+Proof.
+  induction rem as [|m r IH]; intros s; cbn [do_leaves]; [exists []; split; [reflexivity|constructor]|].
+  destruct (mem m (members s)); [|apply IH].
+  destruct (IH (call_cb Leave m (set_members (remove_z m (members s)) s))) as (ls & E & F).
+  destruct (call_cb_log Leave m (set_members (remove_z m (members s)) s)) as (b & Lg).
+  exists (ls ++ [Ev Leave m b]). split.
+  - rewrite E, Lg, <- app_assoc. reflexivity.
+  - apply Forall_app. split; [exact F|]. constructor; [reflexivity|constructor].
+Qed.
+
+Lemma do_joins_log d : forall s,
+  exists js, log (do_joins d s) = js ++ log s /\ Forall (fun e => ev_kind e = Join) js /\
+             map ev_name (rev js) = d.
+Proof.
+  induction d as [|m r IH]; intros s; cbn [do_joins]; [exists []; repeat split; constructor|].
+  destruct (IH (call_cb Join m s)) as (js & E & F & N). destruct (call_cb_log Join m s) as (b & Lg).
+  exists (js ++ [Ev Join m b]). repeat split.
+  - rewrite E, Lg, <- app_assoc. reflexivity.
+  - apply Forall_app. split; [exact F|]. constructor; [reflexivity|constructor].
+  - rewrite rev_app_distr. cbn. rewrite N. reflexivity.
+Qed.
+
+Lemma apply_batch_order d r s :
+  exists js ls, log (apply_batch d r s) = js ++ ls ++ log s /\
+                Forall (fun e => ev_kind e = Join) js /\ Forall (fun e => ev_kind e = Leave) ls /\
+                map ev_name (rev js) = d.
+Proof.
+  unfold apply_batch.
+  destruct (do_leaves_log r (set_members (union d (members s)) s)) as (ls & El & Fl).
+  destruct (do_joins_log d (do_leaves r (set_members (union d (members s)) s))) as (js & Ej & Fj & N).
+  exists js, ls. rewrite Ej, El. repeat split; assumption.
+Qed.
